@@ -15,11 +15,11 @@ static void csdo_cb(CO_CSDO *c, uint16_t idx, uint8_t sub, uint32_t code) { (voi
 
 enum { H_TICK, H_HB0, H_HB3, H_HBC_OFF, H_HBC_3, H_HBC_Y, H_SYNC_ON, H_SYNC_OFF, H_CYC2, H_CYC0, H_EMCY_DIS, H_EMCY_EN, H_TP_INV, H_TP_VAL, H_TP_EVT, H_TP_INH,
        H_HBFRAME, H_SEGDL, H_SEGUL, H_BLKDL, H_BLKUL, H_A3, H_SEG, H_CSDO_REQ, H_CSDO_RESP, H_ESET, H_ECLR, H_LSS_STORE, H_LSS_WAIT, H_START, H_STOP, H_PREOP,
-       H_APP_CREATE, H_APP_DELETE, H_RPDO, H_TRIG, H_SAVE, H_N };
+       H_APP_CREATE, H_APP_DELETE, H_RPDO, H_TRIG, H_ESET9, H_SAVE, H_N };
 static const char *const HN[] = { "tick", "SDO 1017h=0", "SDO 1017h=3", "SDO 1016h:1={9,0}", "SDO 1016h:1={9,3}", "SDO 1016h:1={10,2}", "SDO 1005h=40000080h", "SDO 1005h=80h", "SDO 1006h=2000us", "SDO 1006h=0",
        "SDO 1014h disable", "SDO 1014h enable", "SDO 1800h:1 invalid", "SDO 1800h:1 valid", "SDO 1800h:5=2", "SDO 1800h:3=20", "heartbeat of node 9", "open segmented download", "open segmented upload", "open block download",
-       "open block upload", "block upload start", "download segment", "SDO client request", "SDO client response", "COEmcySet(0)", "COEmcyClr(0)", "LSS configure node-id 7 + store", "LSS switch waiting", "NMT start", "NMT stop", "NMT pre-op",
-       "app timer create", "app timer delete", "RPDO frame", "COTPdoTrigPdo(0)", "SDO 1010h:1='save'" };
+       "open block upload", "block upload start", "download segment", "SDO client request", "SDO client response", "COEmcySet(2)", "COEmcyClr(2)", "LSS configure node-id 7 + store", "LSS switch waiting", "NMT start", "NMT stop", "NMT pre-op",
+       "app timer create", "app timer delete", "RPDO frame", "COTPdoTrigPdo(0)", "COEmcySet(9)", "SDO 1010h:1='save'" };
 
 static const char *cfg_name(int c) { return c == 0 ? "reset communication" : c == 1 ? "reset node" : c == 2 ? "reset communication, OPERATIONAL" : c == 3 ? "reset node, producer config" :
                                             c == 4 ? "reset node, 1017h in a stored communication parameter group" : "reset communication, 1017h in a stored communication parameter group"; }
@@ -50,7 +50,7 @@ static int build(int cfg)
     w_save(S_pre);
     nc_start();
     (void)CONodeGetErr(&Node);
-    return PARA ? H_N : H_N - 1;
+    return PARA ? H_N : H_N - 1;      /* the last event needs the parameter group */
 }
 static const char *ev_name(int e) { return HN[e]; }
 
@@ -87,8 +87,10 @@ static int step(int e)
     case H_SEG: w_rx8(&Node, 0x600u + Node.NodeId, 0x00, 1, 2, 3, 4, 5, 6, 7); break;
     case H_CSDO_REQ: { CO_CSDO *c = COCSdoFind(&Node, 0); if (!c) return MC_SKIP; (void)COCSdoRequestUpload(c, CO_DEV(0x2000, 0), M.csdo_buf, 4, csdo_cb, 5); break; }
     case H_CSDO_RESP: w_rx8(&Node, 0x585, 0x43, 0x00, 0x20, 0x00, 1, 2, 3, 4); break;
-    case H_ESET: COEmcySet(&Node.Emcy, 0, 0); break;
-    case H_ECLR: COEmcyClr(&Node.Emcy, 0); break;
+    /* two emergencies in different status bytes (errors 2 and 9): "emergencies cleared" must hold for every set of pending errors */
+    case H_ESET: COEmcySet(&Node.Emcy, 2, 0); break;
+    case H_ECLR: COEmcyClr(&Node.Emcy, 2); break;
+    case H_ESET9: COEmcySet(&Node.Emcy, 9, 0); break;
     case H_LSS_STORE: d[0] = 4; d[1] = 1; w_rx(&Node, 0x7E5, 8, d); d[0] = 17; d[1] = 7; w_rx(&Node, 0x7E5, 8, d); d[0] = 23; d[1] = 0; w_rx(&Node, 0x7E5, 8, d); break;
     case H_LSS_WAIT: d[0] = 4; d[1] = 0; w_rx(&Node, 0x7E5, 8, d); break;
     case H_START: nc_nmt(1, 0); break;
@@ -109,7 +111,7 @@ static int step(int e)
 /* ------------------------------------------------------------------ probes */
 enum { P_RD_HB, P_RD_HBC, P_RD_SYNC, P_SYNC, P_HBFRAME, P_RPDO, P_START, P_LSS, P_CSDO, P_TICKS, P_SEGUL, P_EMCY, P_TRIG, P_WRRD, P_N };
 static const char *const PN[] = { "SDO read 1017h", "SDO read 1016h:1", "SDO read 1005h", "SYNC", "heartbeat of node 9", "RPDO frame", "NMT start", "LSS switch configuration + inquire node-id", "SDO client request + response",
-    "4 ticks", "segmented upload of a domain", "COEmcySet(1)", "COTPdoTrigPdo(0)", "SDO write + read 2120h" };
+    "4 ticks", "segmented upload of a domain", "COEmcySet(9), COEmcySet(1)", "COTPdoTrigPdo(0)", "SDO write + read 2120h" };
 
 static char  T_txt[2][1500]; static int T_len[2]; static uint64_t T_hash[2];
 static void t_add(int w, const char *fmt, ...) __attribute__((format(printf, 2, 3)));
@@ -146,13 +148,13 @@ static void run_probe(int w, int p)
         t_obs(w, 0); w_rx8(&Node, 0x585, 0x43, 0x01, 0x20, 0x00, 9, 8, 7, 6); break; }
     case P_TICKS: for (int k = 0; k < 4; k++) { w_tick(&Node, 1); t_obs(w, k); } break;
     case P_SEGUL: sdo8(0x40, 0x2130, 0, 0); t_obs(w, 0); sdo8(0x60, 0, 0, 0); break;
-    case P_EMCY: COEmcySet(&Node.Emcy, 1, 0); break;
+    case P_EMCY: COEmcySet(&Node.Emcy, 9, 0); t_obs(w, 0); COEmcySet(&Node.Emcy, 1, 0); break;
     case P_TRIG: COTPdoTrigPdo(Node.TPdo, 0); break;
     case P_WRRD: sdo8(0x23, 0x2120, 0, 0xA1B2C3D4u); t_obs(w, 0); sdo8(0x40, 0x2120, 0, 0); break;
     default: break;
     }
     t_obs(w, 9);
-    t_add(w, "mode=%d id=%d> ", CONmtGetMode(&Node.Nmt), Node.NodeId);
+    t_add(w, "mode=%d id=%d emcy=%d> ", CONmtGetMode(&Node.Nmt), Node.NodeId, COEmcyCnt(&Node.Emcy));
     (void)CONodeGetErr(&Node);
 }
 
